@@ -50,8 +50,8 @@ SumTe(te, e, i) == IF i > Len(te) THEN RZero ELSE RAdd(RMul(te[i][1], e[te[i][2]
 Residual(id, eq, p, u, a, s, dev) ==
     RAdd(RAdd(SumTx(id, eq.tx, p, a, s, dev, 1), SumTe(eq.te, RVecAdd(u[s], a[s]), 1)), IF dev THEN RZero ELSE eq.c)
 
-\* steady state: the fixed point of x = T x + K, written in the library check below
-SteadyOk(id, xbar) == RVecAdd(RMatVec(Model(id).T, xbar), Model(id).K) = xbar
+\* steady state: a path that the reduced form x = T x{-1} + K reproduces (a fixed point when nothing grows), see the library check below
+SteadyOk(id, xprev, x) == RVecAdd(RMatVec(Model(id).T, xprev), Model(id).K) = x
 
 \* measurement variables from the path
 MeasAt(id, p, w, s, dev) == LET m == Model(id) IN
